@@ -150,6 +150,11 @@ func init() {
 		return nil, true
 	})
 	reg("time.Since", func(ex *Exec, st *State, th *Thread, f *Frame, fn *ssa.Function, args []Value, call *ssa.Call, isDefer bool) ([]*State, bool) {
+		if ex.cfg.TimeZero {
+			ex.rep.Stubs["time.Since (constant 0: elapsed time plays no role in this obligation)"] = true
+			ex.setResult(f, call, isDefer, BVC(64, 0))
+			return nil, true
+		}
 		ex.rep.Stubs["time.Since (arbitrary non-negative duration)"] = true
 		d := ex.nondet(st, "nondetI64", "elapsed", BV(64))
 		ex.addPC(st, ex.ctx.Sle(BVC(64, 0), d))
